@@ -142,6 +142,11 @@ func main() {
 	if repo == "" {
 		repo = "/repo"
 	}
+	// runs against a scratch copy (seeded-change self-tests) never touch the committed evidence
+	outRoot := verif
+	if repo != "/repo" {
+		outRoot = filepath.Join(verif, "scratch")
+	}
 	seed := int64(0)
 	if s := os.Getenv("VERIF_SEED"); s != "" {
 		seed, _ = strconv.ParseInt(s, 10, 64)
@@ -435,7 +440,7 @@ func main() {
 	unlisted := 0
 	knownHit := 0
 	if replayFile == "" {
-		os.RemoveAll(filepath.Join(verif, "replay", id))
+		os.RemoveAll(filepath.Join(outRoot, "replay", id))
 	}
 	for _, s := range sigs {
 		v := firstBySig[s]
@@ -453,7 +458,7 @@ func main() {
 		}
 		unlisted++
 		exit = 1
-		rdir := filepath.Join(verif, "replay", id)
+		rdir := filepath.Join(outRoot, "replay", id)
 		os.MkdirAll(rdir, 0o755)
 		h := sha1.Sum([]byte(s))
 		rp := filepath.Join(rdir, fmt.Sprintf("%x.json", h[:6]))
@@ -533,8 +538,8 @@ func main() {
 		"violations":  unlisted,
 	}
 	eb, _ := json.MarshalIndent(ev, "", " ")
-	os.MkdirAll(filepath.Join(verif, "evidence"), 0o755)
-	if err := os.WriteFile(filepath.Join(verif, "evidence", id+".json"), eb, 0o644); err != nil {
+	os.MkdirAll(filepath.Join(outRoot, "evidence"), 0o755)
+	if err := os.WriteFile(filepath.Join(outRoot, "evidence", id+".json"), eb, 0o644); err != nil {
 		cleanup()
 		die(2, "HARNESS-ERROR: cannot write evidence: %v", err)
 	}
